@@ -3808,8 +3808,10 @@ impl KotoVm {
         let previous_frame_base = self.register_base;
         let new_frame_base = previous_frame_base + frame_base as usize;
 
-        self.call_stack
-            .push(Frame::new(chunk.clone(), non_locals, new_frame_base));
+        let mut frame = Frame::new(chunk.clone(), non_locals, new_frame_base);
+        frame.sequence_builders_size = self.sequence_builders.len();
+        frame.string_builders_size = self.string_builders.len();
+        self.call_stack.push(frame);
         self.register_base = new_frame_base;
         self.set_chunk_and_ip(chunk, ip);
         #[cfg(koto_verif)]
@@ -3826,6 +3828,13 @@ impl KotoVm {
         let Some(popped_frame) = self.call_stack.pop() else {
             return runtime_error!(ErrorKind::EmptyCallStack);
         };
+
+        // Sequences and strings that were still being built when the frame was left
+        // (e.g. `'{return x}'`) belong to the popped frame and are discarded with it.
+        self.sequence_builders
+            .truncate(popped_frame.sequence_builders_size);
+        self.string_builders
+            .truncate(popped_frame.string_builders_size);
 
         #[cfg(koto_verif)]
         self.verif_event(
@@ -4222,6 +4231,9 @@ struct Frame {
     //   - an external function is calling back into the VM with a functor
     //   - a module is being imported
     pub execution_barrier: bool,
+    // The sizes of the VM's sequence and string builder stacks when the frame was pushed
+    pub sequence_builders_size: usize,
+    pub string_builders_size: usize,
 }
 
 impl Frame {
@@ -4236,6 +4248,8 @@ impl Frame {
             return_instruction_ip: 0,
             catch_stack: vec![],
             execution_barrier: false,
+            sequence_builders_size: 0,
+            string_builders_size: 0,
         }
     }
 
